@@ -54,7 +54,7 @@ func OpenReplica(cfg Config, dir string, genesisOverride []byte, initialHeight i
 				return nil, err
 			}
 		}
-		res := a.InitChain(abci.RequestInitChain{ChainId: ChainID, Validators: []abci.ValidatorUpdate{}, ConsensusParams: simapp.DefaultConsensusParams, AppStateBytes: stateBytes, Time: time.Unix(1700000000, 0).UTC(), InitialHeight: initialHeight})
+		res := a.InitChain(abci.RequestInitChain{ChainId: ChainID, Validators: []abci.ValidatorUpdate{}, ConsensusParams: consensusParams(), AppStateBytes: stateBytes, Time: time.Unix(1700000000, 0).UTC(), InitialHeight: initialHeight})
 		r.LastApp = res.AppHash
 		c.H = 0
 		r.Initial = initialHeight
